@@ -54,7 +54,8 @@ def required_cells(tier):
     cells += ["prefix:-g*", "prefix:-c*", "prefix:-o*", "prefix:-O*", "prefix:-i*", "prefix:-I*", "prefix:-D*",
               "unmodelled-with-value", "value:space", "value:equals", "value:quote", "value:leading-dash", "command-string",
               "database-file", "database-literal-metacharacters", "database-entry-in-build-directory", "environment:CPATH-set", "database-entry-with-both-forms",
-              "front-end:percent-signs", "database-multi-entry", "class:E", "class:R", "each-catalogue-flag-next-to-modelled", "idiom:dash", "idiom:launcher", "database-file:idiom:dash", "database-file:idiom:launcher"]
+              "front-end:percent-signs", "database-multi-entry", "class:E", "class:R", "each-catalogue-flag-next-to-modelled", "idiom:dash", "idiom:launcher", "database-file:idiom:dash", "database-file:idiom:launcher",
+              "database-entry-without-directory-after-one-with", "forced-include-named-like-a-directory-of-the-build-directory"]
     return cells
 
 
@@ -490,7 +491,7 @@ def multi_entry_databases(ctx, rng, work):
     quoted = ['-DGREETING="hi"', "-DMSG='a b'", '-DS="x y"', "-DPLAIN=1", '-DQ=\\"esc\\"']
     n = 60 if ctx.quick else 1500
     for i in range(n):
-        entries, wants = [], []
+        entries, wants, fdirs = [], [], []
         k = rng.randint(2, 4)
         base_argv = ["gcc", rng.choice(quoted), "-O2", "-I", "inc"] + rng.choice([[], ["-DX=1"], ["-include", "pre.h"]])
         for j in range(k):
@@ -515,6 +516,19 @@ def multi_entry_databases(ctx, rng, work):
                 form = "arguments" if mode == "same-text-arguments" else "command"
                 text = " ".join(argv)          # the printed text of the arguments form, used verbatim as command
             e = {"file": src, "directory": work}
+            fdir = work
+            if i % 3 == 1 and mode != "literal-arguments":
+                # the first entry runs in a build directory; later ones name no directory at all (paths relative to the
+                # analysis root): every entry's relative paths belong to its OWN directory
+                if j == 0:
+                    fdir = os.path.join(work, "build")
+                    os.makedirs(fdir, exist_ok=True)
+                    e = {"file": os.path.join("..", src), "directory": fdir}
+                    argv = [a_ if a_ != src else os.path.join("..", src) for a_ in argv]
+                    text = text.replace(" " + src, " " + os.path.join("..", src))
+                elif j % 2 == 1:
+                    e = {"file": src}
+                acc.cells["database-entry-without-directory-after-one-with"] += 1
             if form == "arguments":
                 e["arguments"] = argv
                 real = argv
@@ -530,6 +544,7 @@ def multi_entry_databases(ctx, rng, work):
                     real = None
             entries.append(e)
             wants.append(real)
+            fdirs.append(fdir)
         if not ctx.mine(i) or any(w is None for w in wants):
             continue
         db = os.path.join(work, "multi.json")
@@ -541,12 +556,46 @@ def multi_entry_databases(ctx, rng, work):
         except Exception as ex:
             got = f"{type(ex).__name__}: {ex}"
         want = [(argmodel.scan(w[1:])[0], argmodel.scan(w[1:])[2],
-                 [os.path.abspath(os.path.join(work, p_)) for p_ in argmodel.scan(w[1:], True)[1]]) for w in wants]
+                 [os.path.abspath(os.path.join(fd_, p_)) for p_ in argmodel.scan(w[1:], True)[1]]) for w, fd_ in zip(wants, fdirs)]
         if got == want:
             acc.held(cells=["database-multi-entry"], cls="database", nontrivial=entries)
         else:
             acc.violated({"input": {"entries": entries}, "witness": {"entries": entries, "expected": want, "observed": got}},
                          cells=["database-multi-entry"], cls="database")
+
+
+def forced_include_directory_scenario(ctx, work):
+    """The build directory holds a DIRECTORY called config.h (a stamp directory); the header of that name lies on the
+    search path.  `-include config.h` names the header: a directory is not a file a compiler could read."""
+    from codebasin import config
+    acc = ctx.acc
+    shutil.rmtree(work, ignore_errors=True)
+    os.makedirs(os.path.join(work, "build", "config.h"))
+    os.makedirs(os.path.join(work, "inc"))
+    os.makedirs(os.path.join(work, "src"))
+    with open(os.path.join(work, "inc", "config.h"), "w") as f:
+        f.write("#define FEATURE 1\n")
+    with open(os.path.join(work, "src", "main.c"), "w") as f:
+        f.write("int a;\n#ifdef FEATURE\nint f;\n#endif\n")
+    wd = os.path.join(work, "build")
+    for k, opts in enumerate((["-I../inc", "-include", "config.h"], ["-I", "../inc", "-includeconfig.h"], ["-include", "config.h", "-isystem", "../inc"])):
+        argv = ["gcc"] + opts + ["-c", "../src/main.c"]
+        for form in ("arguments", "command"):
+            e = {"file": "../src/main.c", "directory": wd}
+            e[form] = argv if form == "arguments" else shlex.join(argv)
+            db = os.path.join(work, "db.json")
+            with open(db, "w") as f:
+                json.dump([e], f)
+            try:
+                es = [x for x in config.load_database(db, work) if x["pass_name"] == "default"]
+                got = es[0]["include_files"]
+            except Exception as ex:
+                got = f"{type(ex).__name__}: {ex}"
+            cells = ["forced-include-named-like-a-directory-of-the-build-directory"]
+            if got == ["config.h"]:
+                acc.held(cells=cells, cls="database", nontrivial=(tuple(argv), form))
+            else:
+                acc.violated({"input": {"entries": [e]}, "witness": {"entries": [e], "expected": ["config.h"], "observed": got}}, cells=cells, cls="database")
 
 
 def front_end_with_percent_signs(ctx, work):
@@ -587,6 +636,8 @@ def run_shard(ctx):
     obs = Observer()
     if ctx.shard == 0:
         front_end_with_percent_signs(ctx, os.path.join(ctx.scratch, "pct"))
+    if ctx.shard == 1 % ctx.nshards:
+        forced_include_directory_scenario(ctx, os.path.join(ctx.scratch, "fidir"))
     mods = modelled_items()
     unm = unmodelled_items()
     rng = ctx.rng("random")
